@@ -32,6 +32,7 @@ def tlc_cases(tier):
 
 def check_case(fb, rec, c, rep, stats, held=None):
     x = np.array([vlib.fl(q) for q in rec['x']]) * c
+    x.flags.writeable = False               # the caller's nodes are never written to
     x0 = vlib.fl(rec['x0']) * c
     W = np.array([[vlib.fl(q) for q in row] for row in rec['W']])
     m = len(x)
